@@ -176,4 +176,147 @@ theorem jump_at_sign_change (c : Cfg α) (hc : GridOk c) :
             exact ⟨s.base.step, tk, tk1, _, h1, h2, h3⟩
         · exact jump_at_sign_change c hc es s1 hi1 t ht
 
+
+/-! ### `init()` establishes the invariant -/
+
+theorem ninit_inv (c : Cfg α) (hc : GridOk c) (h1 : 1 ≤ c.nsteps) (h0 : c.times[0]? = some 0) (e : Env α) :
+    ∃ s evs, ninit c e = .ok (s, evs) ∧ NInv c s ∧ marks evs = [.fill 0] ∧ jumps evs = [] ∧ s.base.step = 0
+      ∧ s.rf = none ∧ s.thr = uniform0 1 e.u ∧ s.gap = e.sq - uniform0 1 e.u := by
+  have hlt : 1 < c.times.length := by have := hc.grid; unfold Grid at this; omega
+  have ht : c.times[1]? = some c.times[1] := List.getElem?_eq_getElem hlt
+  have h2 : ¬ c.n < 2 := by have := hc.n2; omega
+  have hle : (0 : α) ≤ c.times[1] := hc.mono 0 _ _ h0 ht
+  have hin : Stepper.init c = .ok ((⟨true, 0, 0, 1, c.n - 1, 0, 0, c.times[1]⟩ : Stepper.St α),
+      [⟨.hNoNoise 0, 0, 0, 0⟩, ⟨.fill 0, 0, 0, 0⟩,
+       ⟨.newH 0 ((half : α) * ((0 : α) + c.times[1])), 0, 0, 0⟩]) := by
+    simp only [Stepper.init, ht, initBaths, h2, if_false]
+    rfl
+  have hn : ninit c e = .ok ((⟨⟨true, 0, 0, 1, c.n - 1, 0, 0, c.times[1]⟩, none, uniform0 1 e.u,
+                               e.sq - uniform0 1 e.u⟩ : NSt α),
+      [⟨.hNoNoise 0, 0, 0, 0⟩, ⟨.fill 0, 0, 0, 0⟩,
+       ⟨.newH 0 ((half : α) * ((0 : α) + c.times[1])), 0, 0, 0⟩]) := by
+    simp only [ninit, hin]
+  refine ⟨_, _, hn, ⟨⟨rfl, rfl, rfl, ?_, rfl⟩, Nat.zero_le _,
+    fun _ => rfl, fun _ => ⟨0, c.times[1], h0, ht, hle, fun _ => ⟨rfl, le_refl _, hle⟩, fun r hr => by simp at hr⟩⟩,
+    by simp [marks, markOf], by simp [jumps, jumpOf], rfl, rfl, rfl, rfl⟩
+  show c.n - 1 + 1 = c.n
+  have := hc.n2; omega
+
+/-- **The whole run from `init()`**: one fill at `t = 0`, then Fill/StepDone pairs in order. -/
+theorem run_from_init (c : Cfg α) (hc : GridOk c) (h1 : 1 ≤ c.nsteps) (h0 : c.times[0]? = some 0)
+    (e : Env α) (es : List (Env α)) :
+    ∃ m, marks (nrunFromInit c (e :: es)).1 = Mark.fill 0 :: stepMarks c 0 m ∧ m ≤ c.nsteps
+      ∧ ((nrunFromInit c (e :: es)).2 = .done → m = c.nsteps) := by
+  obtain ⟨s, evs, hi, hinv, hm, _, hs, _⟩ := ninit_inv c hc h1 h0 e
+  obtain ⟨m, h2, _, h4, h5⟩ := fills_and_stepdones c hc es s hinv
+  rw [hs] at h2 h4 h5
+  refine ⟨m, ?_, by omega, fun h => by have := h5 (by simpa [nrunFromInit, hi] using h); omega⟩
+  simp only [nrunFromInit, hi, marks_append, hm, h2]
+  rfl
+
+/-! ### Liveness under C19's forced-bisection guard -/
+
+theorem forcedGrid_mono (c : Cfg α) (k k' n : Nat) (h : ForcedGrid c k n) (hk : k ≤ k') : ForcedGrid c k' n :=
+  fun j a b hj h1 h2 => h j a b (le_trans hk hj) h1 h2
+
+theorem term_aux (c : Cfg α) (hc : GridOk c) (n : Nat) :
+    ∀ (es : List (Env α)) (s : NSt α) (J h : Nat), NInv c s → FInv s h → h ≤ n →
+      ForcedGrid c s.base.step n → (jumps (nrun c es s).1).length ≤ J →
+      (c.nsteps - s.base.step) + (if s.rf.isSome = true then J * (n + 2) + (h + 1) else (J + 1) * (n + 2))
+        ≤ es.length →
+      (nrun c es s).2.2 ≠ .tapeOut
+  | [], s, J, h, _, _, _, _, _, hlen => by
+    exfalso
+    have e1 : (J + 1) * (n + 2) = J * (n + 2) + (n + 2) := Nat.succ_mul _ _
+    split at hlen <;> simp at hlen <;> omega
+  | e :: es, s, J, h, hi, hf, hh, hF, hJ, hlen => by
+    by_cases hfin : finished c s.base = true
+    · rw [nrun_finished c e es s hfin]; simp
+    · have hf' : finished c s.base = false := by simpa using hfin
+      have hlive := (not_finished_iff c s.base).mp hf'
+      rcases nstep_cases c hc s e hi hlive with ⟨err, hs, _⟩ | ⟨s1, evs, hs, hi1, _, ho⟩
+      · rw [nrun_error c e es s err hf' hs]; simp
+      · obtain ⟨evs1, hnsc⟩ := nstep_ok_nsc c hc s e hi s1 evs hs
+        obtain ⟨hfa, hfb⟩ := nsc_forced c hc s e hi hlive n h hF hf s1 evs1 hnsc
+        rw [nrun_ok c e es s s1 evs hf' hs] at hJ ⊢
+        simp only [jumps_append, List.length_append] at hJ
+        simp only [List.length_cons] at hlen
+        have e1 : (J + 1) * (n + 2) = J * (n + 2) + (n + 2) := Nat.succ_mul _ _
+        cases ho with
+        | done h0 h1' hstep _ hj _ _ =>
+          rw [hj] at hJ
+          have hF1 : ForcedGrid c s1.base.step n := forcedGrid_mono c _ _ n hF (by omega)
+          apply term_aux c hc n es s1 J 0 hi1 (fun r hr => by rw [h1'] at hr; simp at hr) (Nat.zero_le _) hF1
+            (by simpa using hJ)
+          simp only [h0, h1', Option.isSome_none, Bool.false_eq_true, if_false] at hlen ⊢
+          omega
+        | opened h0 h1' hstep _ hj _ _ =>
+          rw [hj] at hJ
+          have hF1 : ForcedGrid c s1.base.step n := by rw [hstep]; exact hF
+          apply term_aux c hc n es s1 J n hi1 (hfa h0) (le_refl _) hF1 (by simpa using hJ)
+          simp only [h0, h1', Option.isSome_none, Bool.false_eq_true, if_false, if_true] at hlen ⊢
+          omega
+        | cont h0 h1' hstep _ hj _ _ =>
+          rw [hj] at hJ
+          obtain ⟨hge, hf1⟩ := hfb h0 h1'
+          have hF1 : ForcedGrid c s1.base.step n := by rw [hstep]; exact hF
+          apply term_aux c hc n es s1 J (h - 1) hi1 hf1 (by omega) hF1 (by simpa using hJ)
+          simp only [h0, h1', if_true] at hlen ⊢
+          omega
+        | jumped h0 h1' hstep _ hj _ _ =>
+          rw [hj] at hJ
+          simp only [List.length_singleton] at hJ
+          obtain ⟨J', rfl⟩ : ∃ J', J = J' + 1 := ⟨J - 1, by omega⟩
+          have hF1 : ForcedGrid c s1.base.step n := by rw [hstep]; exact hF
+          apply term_aux c hc n es s1 J' 0 hi1 (fun r hr => by rw [h1'] at hr; simp at hr) (Nat.zero_le _) hF1
+            (by omega)
+          have e2 : (J' + 1) * (n + 2) = J' * (n + 2) + (n + 2) := Nat.succ_mul _ _
+          simp only [h0, h1', Option.isSome_none, Bool.false_eq_true, if_false, if_true] at hlen ⊢
+          omega
+
+/-- **The run terminates if it has finitely many jumps** (named liveness hypothesis `hJ`), on every
+grid where C19's forced-bisection guard applies to the remaining steps: with at most `J` jumps it
+needs at most `(remaining steps) + (J+1)(n+2)` sweeps — it then reports `done` or has raised. -/
+theorem terminates_forced_of_jump_budget (c : Cfg α) (hc : GridOk c) (n J : Nat) (es : List (Env α))
+    (s : NSt α) (hi : NInv c s) (hrf : s.rf = none) (hF : ForcedGrid c s.base.step n)
+    (hJ : (jumps (nrun c es s).1).length ≤ J)
+    (hlen : (c.nsteps - s.base.step) + (J + 1) * (n + 2) ≤ es.length) :
+    (nrun c es s).2.2 ≠ .tapeOut := by
+  apply term_aux c hc n es s J 0 hi (fun r hr => by rw [hrf] at hr; simp at hr) (Nat.zero_le _) hF hJ
+  simp only [hrf, Option.isSome_none, Bool.false_eq_true, if_false]
+  exact hlen
+
+/-- **Between the opening of a search and its jump at most `h + 1 ≤ n + 1` further sweeps**
+(bracket narrower than `2^(h+1)`, forced bisection): the jump is there, or the run raised. -/
+theorem search_closes (c : Cfg α) (hc : GridOk c) (n : Nat) :
+    ∀ (h : Nat) (es : List (Env α)) (s : NSt α), NInv c s → FInv s h → s.rf.isSome = true →
+      ForcedGrid c s.base.step n → h + 1 ≤ es.length →
+      jumps (nrun c (es.take (h + 1)) s).1 ≠ [] ∨ ∃ err, (nrun c (es.take (h + 1)) s).2.2 = .err err
+  | h, [], s, _, _, _, _, hlen => by simp at hlen
+  | h, e :: es, s, hi, hf, hopen, hF, hlen => by
+    have hlive : s.base.step < c.nsteps := by
+      by_contra hge
+      have := hi.fin (by omega)
+      rw [this] at hopen; simp at hopen
+    have hf' : finished c s.base = false := (not_finished_iff c s.base).mpr hlive
+    simp only [List.take_succ_cons]
+    rcases nstep_cases c hc s e hi hlive with ⟨err, hs, _⟩ | ⟨s1, evs, hs, hi1, _, ho⟩
+    · right; exact ⟨err, by rw [nrun_error c e _ s err hf' hs]⟩
+    · obtain ⟨evs1, hnsc⟩ := nstep_ok_nsc c hc s e hi s1 evs hs
+      obtain ⟨_, hfb⟩ := nsc_forced c hc s e hi hlive n h hF hf s1 evs1 hnsc
+      rw [nrun_ok c e _ s s1 evs hf' hs]
+      simp only [jumps_append]
+      cases ho with
+      | done h0 _ _ _ _ _ _ => rw [h0] at hopen; simp at hopen
+      | opened h0 _ _ _ _ _ _ => rw [h0] at hopen; simp at hopen
+      | jumped _ _ _ _ hj _ _ => left; rw [hj]; simp
+      | cont h0 h1' hstep _ hj _ _ =>
+        obtain ⟨hge, hf1⟩ := hfb h0 h1'
+        obtain ⟨h', rfl⟩ : ∃ h', h = h' + 1 := ⟨h - 1, by omega⟩
+        have hF1 : ForcedGrid c s1.base.step n := by rw [hstep]; exact hF
+        simp only [List.length_cons] at hlen
+        rcases search_closes c hc n h' es s1 hi1 (by simpa using hf1) h1' hF1 (by omega) with h | h
+        · left; rw [hj]; simpa using h
+        · right; exact h
+
 end EmuVerif.Props.C18
